@@ -554,8 +554,42 @@ def r5_entry(ctx, repo, cls):
     ctx.holds("R5", construct, where(mod, fn), "every design of the batch is queued once, then run() once (%d paths)" % n)
 
 
+def r6_evaluated_first(ctx, repo, cls):
+    """the neighbours are displaced copies of the vector the design FINALLY holds: a design whose evaluation fails
+    transiently is re-sampled (C06), so it must have been evaluated before add() copies its vector"""
+    mod = cls.module
+    fn = cls.methods.get("evaluate")
+    construct = "%s.evaluate" % cls.name
+    if fn is None:
+        return
+    selfn, batch = func_params(fn)[:2]
+    bad = None
+    n = 0
+    for p in Enumerator(loop_counts=(0, 1, 2)).function_paths(fn):
+        if p.outcome == "raise":
+            continue
+        adds = [i for i, e in enumerate(p.events) if e.kind == "stmt" and any(access_path(c.func) == selfn + ".add" for c in calls_in(e.node))]
+        if not adds:
+            continue
+        n += 1
+        evs = [i for i, e in enumerate(p.events) if e.kind == "stmt" and any(
+            ((isinstance(c.func, ast.Attribute) and c.func.attr == "evaluate" and isinstance(c.func.value, ast.Call) and access_path(c.func.value.func) == "super")
+             or access_path(c.func) in (selfn + ".evaluate_serial", selfn + ".evaluate_parallel"))
+            and c.args and access_path(c.args[0]) == batch for c in calls_in(e.node))]
+        if not evs or evs[0] > adds[0]:
+            bad = bad or p
+    if bad is not None:
+        ctx.violated("R6", construct, where(mod, fn), "the neighbours of a design are built (add) before the design itself has been evaluated (path [%s]): when its evaluation fails transiently the "
+                     "design is re-sampled, and the neighbours stay displaced from the discarded vector" % bad.describe(5), key="evaluated-first")
+    elif n:
+        ctx.holds("R6", construct, where(mod, fn), "the batch is evaluated before the neighbours are built (%d paths)" % n, key="evaluated-first")
+    else:
+        ctx.inconclusive("R6", construct, where(mod, fn), "no path queues a design", key="evaluated-first")
+
+
 def run(ctx):
     repo = ctx.repo
+    ctx.rule("R6", "the designs are evaluated before their neighbours are built")
     for rid, doc in (("R1", "work lists filled by add() are emptied after their last use on every normal path of run()"),
                      ("R2", "neighbour construction: axis range, sign set, fresh copy, same-index tolerance, one child per iteration, children reset, queued"),
                      ("R3", "worst-case sensitivity = sum |f0(parent)-f0(child)|, written once into costs and costs_signed before the marker"),
@@ -578,3 +612,5 @@ def run(ctx):
     r4_gradient(ctx, repo, gr)
     r5_entry(ctx, repo, wc)
     r5_entry(ctx, repo, gr)
+    r6_evaluated_first(ctx, repo, wc)
+    r6_evaluated_first(ctx, repo, gr)
